@@ -1,11 +1,15 @@
 import AkVerif.Model.Proto
 import AkVerif.Model.CHText
+import AkVerif.Model.CHTextHist
 /-!
 Driver of C08. One request per line:
 
   val <postfix program>          evaluate an operation tree, print the resulting object
   fmt <spec cps> <program>       `format(x, spec)` as screen cells
   eq <program leaving two values> `a == b`
+  make <c:col:cps …>              `CHText.make([chunks])`
+  resize <n> <c:col:cps …>        `CHText.resize_chunks_list([chunks], n)`
+  hist <stmt> ; <stmt> ; …        a history over several objects (see below)
   alias <n> <program leaving x b>  `u = x.fixed_len(n); u += b`; prints x and u
   pyslice <cps> <i|n> <j|n>      Python's own `s[i:j]`   (the specification function `pySlice`)
   pyidx <cps> <i>                Python's own `s[i]`     (`pyIndex`)
@@ -101,6 +105,64 @@ def showFail {α} (f : α → String) : Except Fail α → String
   | .error (.py e) => "err " ++ e.name
   | .error .unmodelled => "unmodelled"
 
+/-! histories: `hist <stmt> ; <stmt> ; …`, a statement = head token + operand tokens (postfix:
+`s:<cps>` `c:<col>:<cps>` `o:<id>` `ls:<n>` `tp:<n>`); heads: `new` (all operands are the
+arguments), `iadd:<id>`, `add:<id>`, `radd:<id>` (one operand), `join:<id>` (all operands are the
+items), `sl:<id>:<i>:<j>`, `idx:<id>:<i>`, `fl:<id>:<n>`. Reply: the dump of all objects after
+each statement (or the exception), joined by ` || `. -/
+
+def popR (n : Nat) (st : List RPart) : Option (List RPart × List RPart) :=
+  if n ≤ st.length then some ((st.take n).reverse, st.drop n) else none
+
+def stepR (st : List RPart) (tok : String) : Option (List RPart) :=
+  match tok.splitOn ":" with
+  | ["s", cps] => (parseCps cps).map fun s => RPart.str s :: st
+  | ["c", col, cps] =>
+    match col.toNat?, parseCps cps with
+    | some c, some s => some (RPart.chunk ⟨c, s⟩ :: st)
+    | _, _ => none
+  | ["o", id] => id.toNat?.map fun k => RPart.obj k :: st
+  | ["ls", n] => do
+    let (items, rest) ← popR (← n.toNat?) st
+    some (RPart.list false items :: rest)
+  | ["tp", n] => do
+    let (items, rest) ← popR (← n.toNat?) st
+    some (RPart.list true items :: rest)
+  | _ => none
+
+def parseStmt (toks : List String) : Option Stmt :=
+  match toks with
+  | [] => none
+  | head :: ops => do
+    let parts := (← ops.foldlM stepR []).reverse
+    match head.splitOn ":", parts with
+    | ["new"], args => some (Stmt.new args)
+    | ["iadd", id], [p] => id.toNat?.map fun k => Stmt.iadd k p
+    | ["add", id], [p] => id.toNat?.map fun k => Stmt.add k p
+    | ["radd", id], [p] => id.toNat?.map fun k => Stmt.radd k p
+    | ["join", id], items => id.toNat?.map fun k => Stmt.join k items
+    | ["sl", id, i, j], [] => do some (Stmt.slice (← id.toNat?) (← parseOptInt i) (← parseOptInt j))
+    | ["idx", id, i], [] => do some (Stmt.idx (← id.toNat?) (← parseInt i))
+    | ["fl", id, n], [] => do some (Stmt.fixedLen (← id.toNat?) (← parseInt n))
+    | _, _ => none
+
+def splitStmts (toks : List String) : List (List String) :=
+  let (cur, done) := toks.foldl (fun (acc : List String × List (List String)) t =>
+    if t = ";" then ([], acc.1.reverse :: acc.2) else (t :: acc.1, acc.2)) ([], [])
+  (cur.reverse :: done).reverse
+
+def showStore (st : Store) : String :=
+  if st.isEmpty then "-" else " ; ".intercalate (st.map fun t => showPart (.text t))
+
+def parseChunks (toks : List String) : Option (List Chunk) :=
+  toks.mapM fun tok =>
+    match tok.splitOn ":" with
+    | ["c", col, cps] =>
+      match col.toNat?, parseCps cps with
+      | some c, some s => some ⟨c, s⟩
+      | _, _ => none
+    | _ => none
+
 def handle (line : String) : String :=
   match splitWs line with
   | "val" :: toks =>
@@ -125,6 +187,19 @@ def handle (line : String) : String :=
         let u ← eval (Expr.iadd (Expr.fixedLen a k) b)
         pure (showPart x ++ " | " ++ showPart u))
     | _, _ => "bad-op"
+  | "make" :: toks =>       -- `CHText.make([chunks])`
+    match parseChunks toks with
+    | some cs => showPart (.text (Text.make cs))
+    | none => "bad-op"
+  | "resize" :: n :: toks =>   -- `CHText.resize_chunks_list([chunks], n)` and `calc_chunks_len` of the result
+    match parseInt n, parseChunks toks with
+    | some k, some cs =>
+      showExcept (fun r => "CS " ++ showChunks r ++ " L " ++ toString (calcChunksLen r)) (resizeChunks cs k)
+    | _, _ => "bad-op"
+  | "hist" :: toks =>
+    match (splitStmts toks).mapM parseStmt with
+    | some stmts => " || ".intercalate ((CHText.run [] stmts).map (showFail showStore))
+    | none => "bad-op"
   | ["pyslice", s, i, j] =>
     match parseCps s, parseOptInt i, parseOptInt j with
     | some cs, some x, some y => "S " ++ showCps (pySlice cs x y)
